@@ -655,6 +655,8 @@ class Interp:
             self.log("loop-exit", st)
 
     def _concrete_seq(self, it: Any) -> Optional[list]:
+        if isinstance(it, Obj) and "__fields__" in it.attrs:
+            return [it.attrs[f_] for f_ in it.attrs["__fields__"]]          # a NamedTuple instance iterates over its fields in declaration order
         if isinstance(it, ListIter):
             return list(it.items[it.pos:])          # what is left of an iterator over known elements
         if isinstance(it, list) and not any(isinstance(x, Each) for x in it):
